@@ -15,6 +15,8 @@ structure FCell where
   fill : Option Nat := none
   mat : String := "0"
   rho : String := ""
+  filltr : Option Nat := none   -- the FILL transformation (a token standing for its twelve numbers), if any
+  trcl : List Nat := []         -- the TRCL transformations of the cell, in the order they are applied
 deriving Repr, DecidableEq, Inhabited
 
 /-- a cell created by `pot_fill` (or an unfilled cell itself, `path = []`) -/
@@ -24,11 +26,19 @@ structure FLeaf where
   origin : List (Nat × Nat)  -- `idorigin`
   mat : String
   rho : String
+  moves : List Nat := []     -- the transformations applied to the base cell, in the order of application
 deriving Repr, DecidableEq, Inhabited
+
+/-- **which transformations place the filling universe in container `c`**: the FILL transformation when there is
+one — the TRCL of the cell is then disregarded — and otherwise the TRCLs of the container, in their order -/
+def FCell.frameTrs (c : FCell) : List Nat :=
+  match c.filltr with
+  | some t => [t]
+  | none => c.trcl
 
 /-- wrap a leaf of the filling universe into container `c` -/
 def FLeaf.wrap (l : FLeaf) (c : FCell) : FLeaf :=
-  { l with path := l.path ++ [c.id],
+  { l with path := l.path ++ [c.id], moves := l.moves ++ c.frameTrs,
            origin := l.origin ++ [((match l.origin with | (a, _) :: _ => a | [] => l.base), c.id)] }
 
 /-- `pot_fill(key)`: `none` when the fuel (nesting depth) runs out or the universe is empty/unknown -/
